@@ -225,6 +225,37 @@ def other_commands_points():
                 open(outp, "w").write("def f(g: str = 'x'):\n    pass\n")
             else:
                 pts.append((False, "the model's decision for sync_properties is %r" % (w,), facts))
+        # invocations that are rejected - by the argument parser itself (no --truth, a --truth / --type that is not a choice,
+        # no --type) or by main (a missing input / output file, another number of --output-param) - while the files they name
+        # lie in directories that do not exist: a usage error, and nothing is created, directories included
+        j = lambda *parts: os.path.join(root, *parts)  # noqa: E731
+        rejected = [
+            ("sync without --truth", ["sync", "--class", inp, "--class-name", "A", "--argparse-function", j("cli", "parser.py"),
+                                      "--argparse-function-name", "set_cli_args"]),
+            ("sync with a --truth that is no kind", ["sync", "--truth", "method", "--class", inp, "--class-name", "A",
+                                                     "--function", j("fns", "deep", "f.py"), "--function-name", "f"]),
+            ("sync with an unknown option", ["sync", "--truth", "class", "--class", inp, "--class-name", "A", "--function",
+                                             j("fns2", "f.py"), "--function-name", "f", "--no-such-option"]),
+            ("gen without --type", ["gen", "--name-tpl", "{name}Config", "--input-mapping", "collections.abc.__dict__",
+                                    "-o", j("generated", "out.py")]),
+            ("gen with a --type that is no choice", ["gen", "--name-tpl", "{name}Config", "--input-mapping", "collections.abc.__dict__",
+                                                     "--type", "dataclass", "--output-filename", j("generated2", "out.py")]),
+            ("gen without --input-mapping", ["gen", "--name-tpl", "{name}Config", "--type", "class", "-o", j("generated3", "a", "out.py")]),
+            ("sync_properties with both files in directories that do not exist",
+             ["sync_properties", "--input-filename", j("src", "in.py"), "--input-param", "a", "--output-filename", j("dst", "out.py"),
+              "--output-param", "f.g"]),
+            ("sync_properties with an unpaired --output-param and the output in a directory that does not exist",
+             ["sync_properties", "--input-filename", inp, "--input-param", "a", "--output-filename", j("dst2", "out.py"),
+              "--output-param", "f.g", "--output-param", "f.h"]),
+        ]
+        for label, argv in rejected:
+            before = L.snapshot(root, dirs=True)
+            r = L.run_cli(argv, cwd=root)
+            after = L.snapshot(root, dirs=True)
+            ok = r["rc"] == 2 and "usage:" in r["stderr"] and before == after
+            pts.append((ok, "%s (files named in directories that do not exist) must be refused with a usage error and create nothing: "
+                            "rc=%s, appeared %s" % (label, r["rc"], sorted(set(after) - set(before))),
+                        {"command": argv[0], "rejected_with_fresh_directories": label}))
         existing = os.path.join(root, "gen_out.py")
         open(existing, "w").write("KEEP = 1\n")
         before = L.snapshot(root)
@@ -739,17 +770,30 @@ def oracle(rng, tier):
         exhaustive = False
     md = model_decisions(shapes)
     assign_spellings(shapes, md)
+    # what the targets of an accepted shape hold beforehand (agreeing, missing, zero statements, ...); where the files of a
+    # rejected shape are named (every other one: in directories that do not exist)
+    assign_pre_states(shapes, md)
+    assign_fresh_dirs(shapes, md)
+    # plus the grid truth kind x pre-state of the targets, all of it accepted
+    grid = pre_state_grid()
+    shapes = shapes + grid
+    md = md + model_decisions(grid)
     with concurrent.futures.ProcessPoolExecutor(max_workers=14) as ex:
         res = list(ex.map(_cli_point_star, shapes, chunksize=4))
     seen = set()
     for s, d, (ok, what) in zip(shapes, md, res):
         hist["cli:%s:%s" % (d["decision"], "names-complete" if d["names_complete"] else "names-incomplete")] += 1
         hist["cli:%s:spelled-%s" % (d["decision"], s.get("spelling"))] += 1
+        if s.get("fresh_dirs"):
+            hist["cli:%s:files-in-directories-that-do-not-exist" % d["decision"]] += 1
+        for k, pre in sorted((s.get("pre") or {}).items()):
+            hist["cli:%s:target-before:%s" % (d["decision"], "zero-statements" if pre.startswith("zero:") else pre)] += 1
         want_reject = d["decision"] == "reject"
         if want_reject != (what == "rejected"):
             failures.append({"case": {"cli_shape": s}, "what": "model decision %s but the command line %s" % (d["decision"], what), "class": None})
             continue
-        seen.add(dumps([s["truth"], sorted(s["files"].items()), sorted(s["names"].items()), s["exists"]]))
+        seen.add(dumps([s["truth"], sorted(s["files"].items()), sorted(s["names"].items()), s["exists"], sorted((s.get("pre") or {}).items()),
+                        bool(s.get("fresh_dirs"))]))
         if not ok:
             cls = "accepted-file-without-name" if (d["decision"] == "run" and not d["names_complete"]) else None
             failures.append({"case": {"cli_shape": s}, "what": what, "class": cls})
